@@ -1,14 +1,21 @@
 # -*- coding: utf-8 -*-
 """C05 - links are aliases of the original entity, never copies, and stay in their block."""
+import json
+
+from . import core
+from . import dimlink
 from . import modelreplay as mr
+from . import runner
 from .modelcheck import run_property
+
+RANKS = {"t1": 1, "t2": 2}
 
 
 def run(tier, seed, verdict):
     quick = tier != "thorough"
     runs = [mr.ModelRun("MC_C05_quick.cfg" if quick else "MC_C05.cfg", seed, probes=("reopen",),
                         name_pools=[0, 1, 2], stride=8 if quick else 8)]
-    return run_property(
+    level, cov, assumptions = run_property(
         "C05", verdict, runs,
         require_actions=("LinkAppend:ok", "LinkAppend:refused:ForeignBlock", "LinkAppend:refused:WrongKind",
                          "SetRole:ok", "SetAttr:ok", "WriteData:ok"),
@@ -20,8 +27,48 @@ def run(tier, seed, verdict):
              "role link) - the projection contains id, name, type, definition and data as seen through each link; "
              "handles are a seeded mix of long-lived ones and fresh lookups",
         assumptions=["LinkContainer.extend with a valid prefix before an invalid item is left open",
-                     "dimension links are covered by the NixArray-side check once available (not here)"])
+                     "dimension links: targets of rank 1 and 2 (every legal index specification), data-frame targets "
+                     "and what a link reports after its target was deleted are left open"])
+    # second sentence of the property: dimensions linked to arrays (NixDimLink.tla)
+    drun = runner.ExportRun("MC_NixDimLink", "MC_C05_dims_quick.cfg" if quick else "MC_C05_dims.cfg", seed, "harness.dimlink",
+                            opts={"ranks": RANKS}, stride=4 if quick else 6,
+                            label=lambda tx: dimlink.klass(tx["act"]) + ":" + tx["act"]["out"]).run()
+    if drun.res.violation is not None:
+        verdict.violation("tlc/NixDimLink/" + drun.res.violation[:80], {"tlc": drun.res.violation, "trace": drun.res.error_trace[:40]})
+    foreign = 0
+    for f in drun.findings:
+        if f["owner"] == "C05":
+            verdict.violation(f["key"], f["detail"], f["replay"])
+        else:
+            foreign += 1
+            verdict.note("mismatch in a facet owned by %s: %s %s" % (f["owner"], f["key"], str(f["detail"])[:160]),
+                         cls="foreign/%s/%s" % (f["owner"], f["key"]))
+    for need in ("Link/range:ok", "Link/set:ok", "Link/range:refused:BadIndex", "Link/sampled:refused:Unsupported",
+                 "SetOwn/range:ok", "SetOwn/set:refused:Linked", "WriteTarget/data:ok", "SetAttr/range/un/linked:ok", "Unlink:ok"):
+        if not drun.per_action.get(need):
+            raise core.MachineryError("vacuity (NixDimLink): %s never explored (%s)" % (need, sorted(drun.per_action)))
+    cov["states"] += drun.res.distinct
+    cov["transitions"] += drun.stats["exported"]
+    cov["traces_validated_against_impl"] += drun.stats["replayed"] - drun.counters.get("truncated", 0)
+    cov["evaluations"] += drun.stats["replayed"]
+    cov["distinct_nontrivial"] += drun.stats["replayed"] - drun.counters.get("truncated", 0)
+    cov["models"].append(drun.model_summary())
+    cov["dimension_links"] = {"per_action": dict(sorted(drun.per_action.items())), "counters": drun.counters,
+                              "foreign_facet_mismatches": foreign,
+                              "tlc_properties": ["TicksXorLink", "LinkOK", "RefusedUnchanged", "AliasReports", "DimFrame"]}
+    cov["samples"].extend(drun.samples[:1])
+    cov["checker_cmd"] += " ;; " + drun.res.cmd
+    cov["rule"] += "; dimension links (NixDimLink): every history of appending sampled / range / set descriptors, setting "\
+                   "explicit ticks / labels, label and unit (own or through the link), linking to rank-1 and rank-2 targets "\
+                   "with every legal and illegal index specification, unlinking, changing the target's data / unit / label "\
+                   "through its own handle, deleting the descriptors; every descriptor is read through long-lived "\
+                   "descriptor handles kept across calls, two host handles and fresh ones, and after reopening"
+    return level, cov, assumptions
 
 
 def replay(path):
+    with open(path) as fh:
+        rec = json.load(fh)
+    if isinstance(rec.get("replay"), dict) and rec["replay"].get("engine") == "NixDimLink":
+        return dimlink.replay_record(rec, "C05")
     return mr.replay_file(path)
